@@ -1,6 +1,6 @@
 /-
 Bridge lemmas for C03: the facts REGENERATED from the current /repo source (`Pandora.Gen.InstLoop`, rewritten by
-`gen -area instloop` on every check; `Pandora.Gen.Waiter` by `gen -area waiter`) agree with the transition system the
+`gen -area instloop` on every check) agree with the transition system the
 property theorems are proved about (`Pandora.Model.C03`).
 
 * `iterBody_accepted` — for each of the 8 answers of the environment (Acquire ok?, Wait ok?, fire?) and both schedule
@@ -14,15 +14,14 @@ property theorems are proved about (`Pandora.Model.C03`).
   deferred function, the waiter is built on the instance's schedule, the loop condition is `!waiter.IsFinished(ctx)`
   and an error of the iteration function (out of ammo) leaves `Run`.
 * `isFinished_iff` — the loop is left exactly when `Left() = 0` (model: event `chk i left`, `done` iff `left = 0`).
-* `wait_*` — `Waiter.Wait` reports success only with a token drawn from `Next()`, and fails when `Next()` has none
-  (model: `tokOk` needs a token, `tokEnd` = no token).
+* `wait_draws_one_token` — `Waiter.Wait` has one `Next()` call site outside any loop and returns false right after a
+  failed `Next()` (model: `tokOk` consumes one token, `tokEnd` = no token).
 * `scheduleSource_eq`, `newInstance_schedule` — rps-per-instance: every instance calls the schedule factory once
   (model: `start i` gives instance `i` a full profile `own[i] := tokens`); otherwise one shared object (`shared`).
 * `queueAcquire_eq`, `queueRelease_eq` — `AmmoQueue.Acquire` is one receive from the queue channel (an item, or
   "closed and drained"), `Release` only returns the object to the pool (model: `acq` / `empty`, `rel`).
 -/
 import Pandora.Gen.InstLoop
-import Pandora.Gen.Waiter
 import Pandora.Model.C03Loop
 
 namespace Pandora.Bridge.InstLoop
@@ -56,17 +55,9 @@ theorem newInstance_schedule :
 theorem queueAcquire_eq : Gen.InstLoop.queueAcquire = ["$1, $2 := <-p.OutQueue", "return $1, $2"] := rfl
 theorem queueRelease_eq : Gen.InstLoop.queueRelease = ["p.InputPool.Put(a)"] := rfl
 
-open Pandora.Go.C04 Pandora.Model.C04 in
-/-- `Wait` succeeds only with a token drawn from `Next()` -/
-theorem wait_ok_has_token (w : Waiter) (e : Env) (h : (Gen.Waiter.Wait w e).2 = true) : e.tok ≠ none := by
-  intro hn
-  unfold Gen.Waiter.Wait at h
-  by_cases hc : e.ctxDone = true <;> simp [hc, hn] at h
-
-open Pandora.Go.C04 Pandora.Model.C04 in
-/-- `Wait` fails when `Next()` has no token -/
-theorem wait_no_token (w : Waiter) (e : Env) (hn : e.tok = none) : (Gen.Waiter.Wait w e).2 = false := by
-  unfold Gen.Waiter.Wait
-  by_cases hc : e.ctxDone = true <;> simp [hc, hn]
+/-- `Waiter.Wait` draws exactly one token per call (one `sched.Next()` call site, not in a loop) and returns false when
+`Next()` has none (the full translation of `Wait` is C04's: `Pandora.Bridge.Waiter.Wait_eq`) -/
+theorem wait_draws_one_token :
+    Gen.InstLoop.waitNextCalls = 1 ∧ Gen.InstLoop.waitFailsWithoutToken = true := ⟨rfl, rfl⟩
 
 end Pandora.Bridge.InstLoop
